@@ -1,6 +1,7 @@
 (* C15 - No bytes from a peer can crash the process.
    What is proved: the payload reader (messages.go readMessage, repaired: D17) never panics and
-   allocates in proportion to what arrives, whatever length the header declares; the session state
+   allocates in proportion to what arrives, whatever length the header declares; the count-driven
+   handlers allocate per item received, whatever count is declared; the session state
    machine is total (every message class in every state is a transition, possibly to "stopped").
    What is only tested: that the Go runtime and the dependency's decoders do not abort on any byte
    string - the harness feeds structured mutants and random bytes to a node in a child process.
@@ -23,6 +24,27 @@ Theorem C15_as_found_refuted :
   snd (read_payload true 1099511627776 18446744073709551615 20) = 1099511627776.
 Proof. exact read_payload_as_found_refuted. Qed.
 Print Assumptions C15_as_found_refuted.
+
+(* the count-driven handlers (inv, headers, addr: handlers.go reads the declared number of items one
+   at a time and stops at the first read error): no declared count panics, and the item slots
+   allocated are bounded by the items that actually arrived *)
+Theorem C15_items_never_panic : forall count item avail,
+  fst (fst (read_items false count item avail)) <> RdPanic.
+Proof. exact read_items_never_panics. Qed.
+Print Assumptions C15_items_never_panic.
+
+Theorem C15_items_alloc_bounded_by_received : forall count item avail, 0 < item ->
+  snd (read_items false count item avail) * item <= avail /\
+  snd (read_items false count item avail) <= count.
+Proof. exact read_items_alloc_bounded. Qed.
+Print Assumptions C15_items_alloc_bounded_by_received.
+
+(* a list sized by the declared count fails both (a nine-byte count is enough) *)
+Theorem C15_items_presized_refuted :
+  fst (fst (read_items true 18446744073709551615 36 36)) = RdPanic /\
+  snd (read_items true 1000000000000 36 36) = 1000000000000.
+Proof. exact read_items_presized_refuted. Qed.
+Print Assumptions C15_items_presized_refuted.
 
 (* known finding D18: the statement "allocations are bounded by what is received" is false of the
    dependency's transaction decoder *)
